@@ -309,7 +309,7 @@ Proof.
   split; [|split].
   - exists cat0, po0, 100, w_del_unreg, rB, [x1; x3], rM. vm_compute. repeat split; try reflexivity; discriminate.
   - exists cat0, po0, 100, w_del_root, rB, [], rM. vm_compute. repeat split; try reflexivity; try discriminate; intros; reflexivity.
-  - exists cat0, po0, 2, w_gc_root, rM. eexists. vm_compute.
+  - exists cat0, po0, 1, w_gc_root, rN. eexists. vm_compute.
     repeat split; try reflexivity; try discriminate; try (intros; reflexivity).
     intros [H|[]]. discriminate.
 Qed.
